@@ -516,13 +516,15 @@ def assemble(repo, spec, rows=None, canary=None, opts=None):
                             i -= 1
                         ed.insert(i + 1, '\n' + t, prio=0)
                     else:
-                        m = re.match(r'loop\s+(\d+)\s+(start|end|before)$', w)
+                        m = re.match(r'loop\s+(\d+)\s+(start|end|before|after)$', w)
                         if not m: raise ToolError('bad proof position %r for %s' % (w, path))
                         k = int(m.group(1))
                         if k >= len(loops):
                             raise ToolError('lost anchor: %s has no loop %d' % (path, k))
                         if m.group(2) == 'before':
                             ed.insert(loops[k]['kw'], t + indent + '    ', prio=-20)
+                        elif m.group(2) == 'after':
+                            ed.insert(loops[k]['body_close'] + 1, '\n' + t, prio=20)
                         elif m.group(2) == 'start':
                             ed.insert(loops[k]['body_open'] + 1, '\n' + t, prio=0)
                         else:
